@@ -21,6 +21,11 @@ THEOREMS = [
     "VK.psc_step",
     "VK.psc_loop",
     "VK.psc_final",
+    "VK.randomAssign_spec",
+    "VK.applyTransfer_random_facts",
+    "VK.goodTransfers_fractional",
+    "VK.goodTransfers_random",
+    "VK.C07_droop_psc_general",
     "VK.C07_droop_psc_fractional",
     "VK.C07_irv_majority",
     "VK.fpv_link",
